@@ -639,7 +639,7 @@ pub fn parse_time_hhmm(input: &str) -> Result<NaiveTime, ParseError> {
 
 /// Parse datetime in YYMMDDHHMM format
 pub fn parse_datetime_yymmddhhmm(input: &str) -> Result<NaiveDateTime, ParseError> {
-    if input.len() != 10 {
+    if input.len() != 10 || !input.is_ascii() {
         return Err(ParseError::InvalidFormat {
             message: format!(
                 "DateTime must be in YYMMDDHHMM format (10 digits), found {} characters",
@@ -716,6 +716,13 @@ pub fn validate_iban(iban: &str) -> Result<(), ParseError> {
                 "IBAN must be between 15 and 34 characters, found {}",
                 iban.len()
             ),
+        });
+    }
+
+    // An IBAN is ASCII (and only ASCII can be sliced by byte offsets)
+    if !iban.is_ascii() {
+        return Err(ParseError::InvalidFormat {
+            message: "IBAN must contain only ASCII characters".to_string(),
         });
     }
 
